@@ -1,5 +1,6 @@
 SPECIFICATION SimSpec
 CONSTANTS
+  OddImports <- OddOn
   Keys <- MCKeysSim
   Contents = {"a", "b", "c"}
   Types = {"json", "yaml"}
